@@ -106,7 +106,7 @@ theorem built_rebuildable (rs : List RawNote) (cs : List Control) (thr : Int) (p
     docstring lists them as mandatory; tick columns are never looked at); an empty array gives an empty part -/
 theorem from_array_mandatory (f : ArrFields) (rows : List ARow) :
     (rows ≠ [] → (f.sec = false ∨ f.vel = false) → fromArray f rows = none)
-    ∧ fromArray f [] = some ⟨[], [], 64⟩ := by
+    ∧ fromArray f [] = some ⟨[], [], Gen.C14.defaultThreshold⟩ := by
   constructor
   · intro hne hf
     unfold fromArray
@@ -122,19 +122,19 @@ theorem from_array_mandatory (f : ArrFields) (rows : List ARow) :
     restricted to those columns has, note by note, the pitch `note_array` reported (under both keys), the velocity,
     the onset and — as release and as sounding end — the sounding end of the original; tracks and channels are the
     original ones when their column is there and 0 / 1 otherwise; ids are `n0, n1, …` unless the array has an id
-    column with at least two different ids; no controls, threshold 64 -/
+    column with at least two different ids; no controls, the default threshold (the defaults are regenerated) -/
 theorem from_array_roundtrip (f : ArrFields) (hf : f.sec = true ∧ f.vel = true) (mpq ppq : Nat) (p : PPart)
     (hp : ∀ n ∈ p.notes, Rebuildable n) :
     ∃ q, fromArray f (partRows mpq ppq p) = some q
       ∧ q.notes.map (fun n => (n.pitch, n.midiPitch, n.vel, n.on, n.off, n.soundOff))
           = p.notes.map (fun n => (n.midiPitch, n.midiPitch, n.vel, n.on, n.soundOff, n.soundOff))
-      ∧ q.notes.map (·.track) = p.notes.map (fun n => if f.track then n.track else 0)
-      ∧ q.notes.map (·.chan) = p.notes.map (fun n => if f.chan then n.chan else 1)
+      ∧ q.notes.map (·.track) = p.notes.map (fun n => if f.track then n.track else Gen.C14.fromArrayTrackDefault)
+      ∧ q.notes.map (·.chan) = p.notes.map (fun n => if f.chan then n.chan else Gen.C14.fromArrayChanDefault)
       ∧ q.notes.map (·.id) = (arrayIds f (partRows mpq ppq p)).map some
       ∧ (∀ n ∈ q.notes, n.onTick = none ∧ n.offTick = none)
-      ∧ q.controls = [] ∧ q.thr = 64 := by
+      ∧ q.controls = [] ∧ q.thr = Gen.C14.defaultThreshold := by
   by_cases hemp : p.notes = []
-  · refine ⟨⟨[], [], 64⟩, ?_, ?_⟩
+  · refine ⟨⟨[], [], Gen.C14.defaultThreshold⟩, ?_, ?_⟩
     · unfold partRows; rw [hemp]; rfl
     · simp [hemp, partRows, arrayIds]
       cases f.hasId <;> simp [nIds]
@@ -178,14 +178,14 @@ theorem from_array_roundtrip (f : ArrFields) (hf : f.sec = true ∧ f.vel = true
       rw [hnsdef] at hn
       obtain ⟨ir, _, rfl⟩ := List.mem_map.mp hn
       rfl
-    have hq : fromArray f rows = some ⟨ns, [], 64⟩ := by
+    have hq : fromArray f rows = some ⟨ns, [], Gen.C14.defaultThreshold⟩ := by
       unfold fromArray
       rw [hne]
       simp only [hf.1, hf.2, Bool.and_self, Bool.not_true, Bool.false_eq_true, if_false]
       unfold buildRaw
       rw [← hids, hinit]
-      exact assignThr_no_controls ns 64 hsame
-    refine ⟨⟨ns, [], 64⟩, hq, ?_, ?_, ?_, ?_, ?_, rfl, rfl⟩
+      exact assignThr_no_controls ns Gen.C14.defaultThreshold hsame
+    refine ⟨⟨ns, [], Gen.C14.defaultThreshold⟩, hq, ?_, ?_, ?_, ?_, ?_, rfl, rfl⟩
     · simp only [hnsdef, List.map_map]
       have := map_zip_snd (fun r : ARow => (r.row.pitch, r.row.pitch, r.row.vel, r.row.onsetSec,
         r.row.onsetSec + r.row.durSec, r.row.onsetSec + r.row.durSec)) ids rows hlen
@@ -199,14 +199,14 @@ theorem from_array_roundtrip (f : ArrFields) (hf : f.sec = true ∧ f.vel = true
       have : n.on + (n.soundOff - n.on) = n.soundOff := add_sub_cancel _ _
       rw [this]
     · simp only [hnsdef, List.map_map]
-      have := map_zip_snd (fun r : ARow => if f.track then r.row.track else 0) ids rows hlen
+      have := map_zip_snd (fun r : ARow => if f.track then r.row.track else Gen.C14.fromArrayTrackDefault) ids rows hlen
       simp only [Function.comp_def, rebuilt] at this ⊢
       rw [this, hrows]
       unfold partRows
       rw [List.map_map]
       rfl
     · simp only [hnsdef, List.map_map]
-      have := map_zip_snd (fun r : ARow => if f.chan then r.row.chan else 1) ids rows hlen
+      have := map_zip_snd (fun r : ARow => if f.chan then r.row.chan else Gen.C14.fromArrayChanDefault) ids rows hlen
       simp only [Function.comp_def, rebuilt] at this ⊢
       rw [this, hrows]
       unfold partRows
@@ -221,14 +221,14 @@ theorem from_array_roundtrip (f : ArrFields) (hf : f.sec = true ∧ f.vel = true
       obtain ⟨ir, _, rfl⟩ := List.mem_map.mp hn
       exact ⟨rfl, rfl⟩
 
-/-- the rebuilt part has the default ppq = 480 / mpq = 500000, and its own note array agrees with the original's
+/-- the rebuilt part has the default ppq / mpq of `PerformedPart.__init__` (regenerated from the source), and its own note array agrees with the original's
     seconds, pitch and velocity columns (the ticks are the tick images under the defaults: `rows_consistent`) -/
 theorem from_array_rows (f : ArrFields) (hf : f.sec = true ∧ f.vel = true) (mpq ppq : Nat) (p q : PPart)
     (hp : ∀ n ∈ p.notes, Rebuildable n) (hq : fromArray f (partRows mpq ppq p) = some q) :
     (partRows defaultMpq defaultPpq q).map (fun r => (r.row.onsetSec, r.row.durSec, r.row.pitch, r.row.vel))
       = (partRows mpq ppq p).map (fun r => (r.row.onsetSec, r.row.durSec, r.row.pitch, r.row.vel))
     ∧ (partRows defaultMpq defaultPpq q).map (fun r => r.row.onsetTick)
-      = p.notes.map (fun n => secToTick n.on 500000 480) := by
+      = p.notes.map (fun n => secToTick n.on defaultMpq defaultPpq) := by
   obtain ⟨q', hq', h1, _, _, _, hticks, _, _⟩ := from_array_roundtrip f hf mpq ppq p hp
   rw [hq] at hq'
   have := Option.some.inj hq'
@@ -244,23 +244,27 @@ theorem from_array_rows (f : ArrFields) (hf : f.sec = true ∧ f.vel = true) (mp
   · simp only [partRows, List.map_map, Function.comp_def, noteRow, PNote.toNote]
     exact hA
   · have hC : (partRows defaultMpq defaultPpq q).map (fun r => r.row.onsetTick)
-        = q.notes.map (fun n => secToTick n.on 500000 480) := by
+        = q.notes.map (fun n => secToTick n.on defaultMpq defaultPpq) := by
       simp only [partRows, List.map_map]
       apply List.map_congr_left
       intro n hn
-      simp only [Function.comp, noteRow, PNote.toNote, (hticks n hn).1, Option.getD_none, defaultMpq, defaultPpq]
+      simp only [Function.comp, noteRow, PNote.toNote, (hticks n hn).1, Option.getD_none]
     rw [hC]
-    have := congrArg (List.map (fun t : Rat => secToTick t 500000 480)) hB
+    have := congrArg (List.map (fun t : Rat => secToTick t defaultMpq defaultPpq)) hB
     simpa [List.map_map, Function.comp_def] using this
 
--- both ids equal -> `n0, n1`; no track column -> 0; channel column kept; the rebuilt part's ticks are under 480/500000;
+-- both ids equal -> `n0, n1`; no track column -> the default; channel column kept; the rebuilt part's ticks are under the
+-- default ppq / mpq (all regenerated from the source);
 -- an array without the seconds columns is rejected
 example : ((buildRaw [⟨some "a", some 60, none, some 0, some 2, none, none, some 3, some 5, none, none⟩,
                       ⟨some "a", none, some 60, some 3, some 4, none, some 64, none, none, none, none⟩]
     [⟨64, 1/2, 100, none⟩, ⟨64, 5, 0, none⟩] 64).bind (fun p => fromArray ⟨true, true, true, false, true⟩ (partRows 250000 96 p))).map
       (fun q => (q.notes, (partRows defaultMpq defaultPpq q).map (fun r => (r.id, r.row.onsetTick, r.row.durTick))))
-    = some ([⟨some "n0", 60, 60, 0, 3, 3, 60, 0, 5, none, none⟩, ⟨some "n1", 60, 60, 3, 5, 5, 64, 0, 1, none, none⟩],
-            [("n0", 0, 2880), ("n1", 2880, 1920)]) := by
+    = some ([⟨some (Gen.C14.fromArrayIdHead ++ "0"), 60, 60, 0, 3, 3, Gen.C14.velDefault, Gen.C14.fromArrayTrackDefault, 5, none, none⟩,
+             ⟨some (Gen.C14.fromArrayIdHead ++ "1"), 60, 60, 3, 5, 5, 64, Gen.C14.fromArrayTrackDefault, Gen.C14.chanDefault, none, none⟩],
+            [(Gen.C14.fromArrayIdHead ++ "0", 0, secToTick 3 defaultMpq defaultPpq),
+             (Gen.C14.fromArrayIdHead ++ "1", secToTick 3 defaultMpq defaultPpq,
+              secToTick 5 defaultMpq defaultPpq - secToTick 3 defaultMpq defaultPpq)]) := by
   decide +kernel
 example : (buildRaw [⟨some "a", some 60, none, some 0, some 2, none, none, some 3, some 5, none, none⟩] [] 64).bind
     (fun p => fromArray ⟨false, true, true, true, true⟩ (partRows 250000 96 p)) = none := by decide +kernel
@@ -318,7 +322,7 @@ theorem perf_rows_spec (uid : Bool) (parts : List (List ARow)) :
     with the part number when there are several parts (and `unique_id_per_part` is left on) — so `rows_consistent` holds for the performance array -/
 theorem perf_rows_are_part_rows (uid : Bool) (parts : List (List ARow)) (x : ARow) (hx : x ∈ perfConcat uid parts) :
     ∃ i rows r, parts[i]? = some rows ∧ r ∈ rows ∧ x.row = r.row
-      ∧ x.id = if uid = true ∧ parts.length > 1 then "P" ++ pad2 i ++ "_" ++ r.id else r.id := by
+      ∧ x.id = if uid = true ∧ parts.length > 1 then Gen.C14.idPrefixHead ++ pad2 i ++ Gen.C14.idPrefixTail ++ r.id else r.id := by
   unfold perfConcat at hx
   obtain ⟨pr, hpr, hxin⟩ := List.mem_flatMap.mp hx
   have hget : parts[pr.2]? = some pr.1 := List.mem_zipIdx_iff_getElem?.mp hpr
@@ -335,8 +339,9 @@ theorem perf_rows_are_part_rows (uid : Bool) (parts : List (List ARow)) (x : ARo
 
 example : perfRows true [[⟨"n0", ⟨1, 1, 960, 960, 62, 64, 0, 1⟩⟩, ⟨"n1", ⟨0, 1, 0, 960, 60, 64, 0, 1⟩⟩],
                     [⟨"n0", ⟨1, 2, 960, 1920, 60, 70, 1, 1⟩⟩]]
-    = some [⟨"P00_n1", ⟨0, 1, 0, 960, 60, 64, 0, 1⟩⟩, ⟨"P01_n0", ⟨1, 2, 960, 1920, 60, 70, 1, 1⟩⟩,
-            ⟨"P00_n0", ⟨1, 1, 960, 960, 62, 64, 0, 1⟩⟩] := by decide +kernel
+    = some [⟨Gen.C14.idPrefixHead ++ pad2 0 ++ Gen.C14.idPrefixTail ++ "n1", ⟨0, 1, 0, 960, 60, 64, 0, 1⟩⟩,
+            ⟨Gen.C14.idPrefixHead ++ pad2 1 ++ Gen.C14.idPrefixTail ++ "n0", ⟨1, 2, 960, 1920, 60, 70, 1, 1⟩⟩,
+            ⟨Gen.C14.idPrefixHead ++ pad2 0 ++ Gen.C14.idPrefixTail ++ "n0", ⟨1, 1, 960, 960, 62, 64, 0, 1⟩⟩] := by decide +kernel
 
 example : perfRows false [[⟨"n0", ⟨1, 1, 960, 960, 62, 64, 0, 1⟩⟩], [⟨"n0", ⟨1, 2, 960, 1920, 60, 70, 1, 1⟩⟩]]
     = some [⟨"n0", ⟨1, 2, 960, 1920, 60, 70, 1, 1⟩⟩, ⟨"n0", ⟨1, 1, 960, 960, 62, 64, 0, 1⟩⟩] := by decide +kernel
